@@ -474,6 +474,19 @@ where
 
     /// Declines a welcome
     pub fn decline_welcome(&self, welcome: &welcome_types::Welcome) -> Result<(), Error> {
+        // An invitation that has been accepted stays accepted: the membership it led to is not
+        // ended by declining it afterwards (leave_group does that), and marking it declined
+        // would let it be accepted once more later, which replaces the group's current MLS
+        // state with the state at the time of the invitation.
+        if let Some(stored) = self
+            .storage()
+            .find_welcome_by_event_id(&welcome.id)
+            .map_err(|e| Error::Welcome(e.to_string()))?
+            && stored.state == welcome_types::WelcomeState::Accepted
+        {
+            return Ok(());
+        }
+
         let welcome_preview = self.preview_welcome(&welcome.wrapper_event_id, &welcome.event)?;
 
         let mls_group_id = welcome_preview.staged_welcome.group_context().group_id();
